@@ -41,6 +41,8 @@ struct Inner {
     seq: u64,
     /// total of all steps applied (fixed-point, wrapping)
     stepped_total: i64,
+    /// every step applied, never dropped (the `calls` log is a bounded window)
+    steps: Vec<i64>,
 }
 
 impl Inner {
@@ -83,6 +85,7 @@ impl SimClock {
             calls: Vec::new(),
             seq: 0,
             stepped_total: 0,
+            steps: Vec::new(),
         })))
     }
 
@@ -127,6 +130,11 @@ impl SimClock {
         self.0.lock().unwrap().seq
     }
 
+    /// All steps applied since creation (unlike `calls_since`, which only covers a recent window).
+    pub fn steps(&self) -> Vec<i64> {
+        self.0.lock().unwrap().steps.clone()
+    }
+
     pub fn stepped_total(&self) -> i64 {
         self.0.lock().unwrap().stepped_total
     }
@@ -139,6 +147,9 @@ impl SimClock {
         // keep memory bounded on long runs: the oracles only look at recent calls
         if i.calls.len() > 4096 {
             i.calls.drain(..2048);
+        }
+        if let ClockCall::Step(d) = call {
+            i.steps.push(d);
         }
         i.calls.push(CallRecord { seq, t_ns, call });
     }
